@@ -449,12 +449,13 @@ fn var_matrix(kind_of_contract: &str) -> String {
         src.push_str(&format!("{} M_{} {{\n", kind_of_contract, tn));
         for vis in VAR_VIS {
             for m in VAR_MUT {
-                for us in ["", "_"] {
+                // no underscore, leading underscore, underscore elsewhere in the name only
+                for (us, suf) in [("", ""), ("_", ""), ("", "_s"), ("", "_")] {
                     n += 1;
                     let init = if *m == "constant" { *init } else { "" };
                     let attrs = [*vis, *m].iter().filter(|a| !a.is_empty()).cloned().collect::<Vec<_>>().join(" ");
                     let sp = if attrs.is_empty() { "" } else { " " };
-                    src.push_str(&format!("    {}{}{} {}v{}{};\n", ty, sp, attrs, us, n, init));
+                    src.push_str(&format!("    {}{}{} {}v{}{}{};\n", ty, sp, attrs, us, n, suf, init));
                 }
             }
         }
@@ -476,12 +477,12 @@ fn fn_matrix(container: &str, with_body: bool) -> String {
     let mut n = 0;
     for vis in FN_VIS {
         for m in FN_MUT {
-            for us in ["", "_"] {
+            for (us, suf) in [("", ""), ("_", ""), ("", "_s")] {
                 for virt in ["", "virtual"] {
                     n += 1;
                     let attrs = [*vis, *m, virt].iter().filter(|a| !a.is_empty()).cloned().collect::<Vec<_>>().join(" ");
                     let body = if with_body { "{}" } else { ";" };
-                    src.push_str(&format!("    function {}f{}(uint a) {} {}\n", us, n, attrs, body));
+                    src.push_str(&format!("    function {}f{}{}(uint a) {} {}\n", us, n, suf, attrs, body));
                 }
             }
         }
